@@ -308,11 +308,24 @@ func checkC12(c *Check, p *Program) {
 		c.Analysed("functions", FuncName(fn))
 		inner := p.Method("knx", w.client, "Send")
 		n := 0
+		// a validator in front: v(event) error, whose every failing return is behind a command beyond write or a
+		// payload beyond 254 octets (events the property does not speak of); the wrapper gives up only on its error
+		assume := map[ssa.Value]bool{}
 		instrsOf(fn, func(in ssa.Instruction) {
 			call, ok := in.(*ssa.Call)
 			if !ok || call.Common().StaticCallee() != inner {
 				if ok && call.Common().StaticCallee() != nil && call.Common().StaticCallee() != builder && p.InModule(call.Common().StaticCallee()) {
-					c.Fail("C12.out", FuncName(fn)+" extra call", p.InstrPos(in), "the wrapper calls "+FuncName(call.Common().StaticCallee()))
+					v := call.Common().StaticCallee()
+					if why := groupValidator(p, v, call, fn); why != "" {
+						c.Fail("C12.out", FuncName(fn)+" extra call", p.InstrPos(in), "the wrapper calls "+FuncName(v)+": "+why)
+					} else {
+						c.OK("C12.out", FuncName(fn)+" validator "+FuncName(v), p.InstrPos(in), "rejects only commands beyond write and payloads beyond 254 octets, has no effect")
+						for _, u := range usesOf(call) {
+							if bo, ok := u.(*ssa.BinOp); ok && (bo.Op == token.NEQ || bo.Op == token.EQL) && (isNilConst(bo.X) || isNilConst(bo.Y)) {
+								assume[bo] = bo.Op == token.EQL // the validator accepted
+							}
+						}
+					}
 				}
 				return
 			}
@@ -332,7 +345,7 @@ func checkC12(c *Check, p *Program) {
 			}
 			c.Decide(okT && okF, "C12.out", FuncName(fn)+" sends &"+w.wrapT+"{LData: build(event)}", p.InstrPos(call), "the built frame wrapped as "+w.wrapT, "the wrapper does not send the built frame as a *cemi."+w.wrapT)
 		})
-		min, max := pathCount(fn.Blocks[0], func(in ssa.Instruction) bool { return staticCallTo(in, inner) }, nil)
+		min, max := pathCountAssuming(fn.Blocks[0], func(in ssa.Instruction) bool { return staticCallTo(in, inner) }, nil, assume)
 		c.Decide(n == 1 && min == 1 && max == 1, "C12.out", FuncName(fn)+" exactly one Send", p.Pos(fn.Pos()), "one call of the client's Send on every path", fmt.Sprintf("%d..%d sends", min, max))
 	}
 	c.Floor("C12.out", "group Send wrappers", nWrap, 2)
@@ -584,4 +597,99 @@ func checkC12(c *Check, p *Program) {
 	}
 	c.Floor("C12.in", "group forwarder functions", n, 1)
 	c.Floor("C12.in", "constructors that start the forwarder (group tunnel, group router)", nGo, 2)
+}
+
+// groupValidator judges a function called by a group client's Send before the
+// telegram is built.  "" when it is a pure validator of the event that fails
+// only outside the domain the property speaks of.
+func groupValidator(p *Program, v *ssa.Function, call *ssa.Call, wrapper *ssa.Function) string {
+	if len(v.Params) != 1 || len(call.Common().Args) != 1 || unspill(call.Common().Args[0]) != ssa.Value(wrapper.Params[1]) {
+		return "not a function of the event alone"
+	}
+	res := v.Signature.Results()
+	if res.Len() != 1 || !types.Identical(res.At(0).Type(), types.Universe.Lookup("error").Type()) {
+		return "does not return just an error"
+	}
+	ev := v.Params[0]
+	bad := ""
+	instrsOf(v, func(in ssa.Instruction) {
+		switch x := in.(type) {
+		case *ssa.Store:
+			root := x.Addr
+			for i := 0; i < 6; i++ {
+				switch y := root.(type) {
+				case *ssa.IndexAddr:
+					root = y.X
+					continue
+				case *ssa.FieldAddr:
+					root = y.X
+					continue
+				}
+				break
+			}
+			if al, isAl := root.(*ssa.Alloc); !isAl || al.Parent() != v {
+				bad = "stores outside its locals at " + p.InstrPos(x)
+			}
+		case *ssa.Go, *ssa.Defer, *ssa.Send, *ssa.MapUpdate, *ssa.Select:
+			bad = "has an effect at " + p.InstrPos(in)
+		case *ssa.Call:
+			if builtinName(x) != "" {
+				return
+			}
+			o := calleeObj(x)
+			if !(funcIs(o, "fmt", "", "Errorf") || funcIs(o, "errors", "", "New") || funcIs(o, "fmt", "", "Sprintf")) {
+				bad = "calls " + describe(x.Common().Value) + " at " + p.InstrPos(x)
+			}
+		}
+	})
+	if bad != "" {
+		return bad
+	}
+	isField := func(val ssa.Value, name string) bool {
+		val = unspill(val)
+		for i := 0; i < 4; i++ {
+			switch y := val.(type) {
+			case *ssa.Convert:
+				val = unspill(y.X)
+				continue
+			case *ssa.ChangeType:
+				val = unspill(y.X)
+				continue
+			}
+			break
+		}
+		if f := loadedField(val); f != nil && f.Name() == name {
+			return true
+		}
+		if fl, ok := val.(*ssa.Field); ok && unspill(fl.X) == ssa.Value(ev) {
+			return structField(fl.X.Type(), fl.Field).Name() == name
+		}
+		return false
+	}
+	isLenData := func(val ssa.Value) bool {
+		cl, ok := unspill(val).(*ssa.Call)
+		return ok && builtinName(cl) == "len" && isField(cl.Common().Args[0], "Data")
+	}
+	for _, r := range returnsOf(v) {
+		if len(r.Results) != 1 || isNilConst(r.Results[0]) {
+			continue
+		}
+		okR := anyFact(factsAt(r.Block()), func(f Cmp) bool {
+			k, isK := constInt(f.Y)
+			if !isK {
+				return false
+			}
+			switch {
+			case isField(f.X, "Command"):
+				return (f.Op == token.GTR && k >= 2) || (f.Op == token.GEQ && k >= 3)
+			case isLenData(f.X):
+				return (f.Op == token.GTR && k >= 254) || (f.Op == token.GEQ && k >= 255)
+			}
+			return false
+		})
+		if !okR {
+			return "a failing return at " + p.InstrPos(r) + " is not behind a command beyond write or a payload beyond 254 octets: a read, response or write with a payload the property covers is refused"
+		}
+	}
+	return ""
 }
